@@ -14,7 +14,7 @@ pub fn def() -> CheckDef {
         meta: CheckMeta {
             id: "C02",
             level: "fault_enumeration",
-            rule: "generated histories (small and large transactions, bucket deletes, growth from a 4-page file, page reuse, histories whose free list spans several pages: a few hundred page-sized values deleted at once, then small commits; histories that resize one value so that its leaf is exactly 2-4 pages long or one byte off; in 5 of 16 histories every write transaction is accompanied by a short-lived reader, open when the writer begins and closed before its commit or right after its begin) are executed by a worker process under the LD_PRELOAD I/O shim, which logs every write (offset, bytes), sync and file size on the database descriptor, with markers around every commit. For every group of writes between two completed syncs the analyser synthesises crash images on a scratch file: every subset of the unsynced writes (exhaustive up to 10 writes; above: none/all, singletons, complements, prefixes = process kill, suffixes, header-only, data-only, seeded random subsets), each write additionally torn at 512-byte sectors (prefix lost / tail lost / seeded sector subset) and header writes at 8-byte word granularity (every word prefix, every single word missing, every single word alone, seeded word subsets), with the file-size change durable or lost. Oracle per image: the independent parser says structurally sound and shows exactly S_{i-1} or S_i (exactly S_i once commit i has returned), and reopening through the public API succeeds and dumps the same. An evaluation is one distinct image (by content). Non-trivial = image with at least one but not all writes of its group applied, or a torn write.",
+            rule: "generated histories (small and large transactions, bucket deletes, growth from a 4-page file, page reuse, histories whose free list spans several pages: a few hundred page-sized values deleted at once, then small commits; histories that resize one value so that its leaf is exactly 2-4 pages long or one byte off; 1 history in 8 is turned into a legacy-format (<= 0.10 headers) file half-way; in 5 of 16 histories every write transaction is accompanied by a short-lived reader, open when the writer begins and closed before its commit or right after its begin) are executed by a worker process under the LD_PRELOAD I/O shim, which logs every write (offset, bytes), sync and file size on the database descriptor, with markers around every commit. For every group of writes between two completed syncs the analyser synthesises crash images on a scratch file: every subset of the unsynced writes (exhaustive up to 10 writes; above: none/all, singletons, complements, prefixes = process kill, suffixes, header-only, data-only, seeded random subsets), each write additionally torn at 512-byte sectors (prefix lost / tail lost / seeded sector subset) and header writes at 8-byte word granularity (every word prefix, every single word missing, every single word alone, seeded word subsets), with the file-size change durable or lost. Oracle per image: the independent parser says structurally sound and shows exactly S_{i-1} or S_i (exactly S_i once commit i has returned), and reopening through the public API succeeds and dumps the same. An evaluation is one distinct image (by content). Non-trivial = image with at least one but not all writes of its group applied, or a torn write.",
             assumptions: &[
                 "power-loss model: writes issued since the last completed fsync/fdatasync may be lost, reordered or torn at sector (header: word) granularity; a completed sync is durable including the file size",
                 "crashes during initial file creation are out of scope of the property",
@@ -32,6 +32,9 @@ pub struct C02Case {
     /// short-lived reader around every writer (RunOpts::reader_dance)
     #[serde(default)]
     pub dance: u8,
+    /// index of a Reopen transaction at which the harness re-encodes both headers in the legacy format
+    #[serde(default)]
+    pub legacy_at: Option<usize>,
 }
 
 pub struct Analysis {
@@ -80,8 +83,12 @@ pub fn run_worker(case: &HistoryCase, dir: &Path, extra_env: &[(&str, String)], 
     Ok((evs, ms, out))
 }
 
-pub fn analyse(case: &HistoryCase, dance: u8, dir: &Path, seed: u64, exhaustive_up_to: usize, random_subsets: usize) -> Result<Analysis, Failure> {
-    let (evs, models, out) = run_worker(case, dir, &[("JV_READER_DANCE", dance.to_string())], "crash")?;
+pub fn analyse(case: &HistoryCase, dance: u8, legacy_at: Option<usize>, dir: &Path, seed: u64, exhaustive_up_to: usize, random_subsets: usize) -> Result<Analysis, Failure> {
+    let mut env = vec![("JV_READER_DANCE", dance.to_string())];
+    if let Some(i) = legacy_at {
+        env.push(("JV_LEGACY_AT", i.to_string()));
+    }
+    let (evs, models, out) = run_worker(case, dir, &env, "crash")?;
     if !out.status.success() {
         return Err(Failure::new(
             "worker",
@@ -103,6 +110,7 @@ pub fn analyse(case: &HistoryCase, dance: u8, dir: &Path, seed: u64, exhaustive_
     let mut cur_size = 0u64;
     let mut started = false;
     let mut in_commit = false;
+    let mut harness_write = false; // between HBEGIN and HEND: the harness edits the closed file
     let mut c = 0usize; // commits that returned Ok
     for (ei, ev) in evs.iter().enumerate() {
         match ev {
@@ -133,6 +141,13 @@ pub fn analyse(case: &HistoryCase, dance: u8, dir: &Path, seed: u64, exhaustive_
                     }
                 }
                 "BEGIN" => in_commit = true,
+                "HBEGIN" => harness_write = true,
+                "HEND" => {
+                    // the harness's own edit is taken as a whole (no crash images inside it)
+                    harness_write = false;
+                    ck.sync(&unsynced, cur_size)?;
+                    unsynced.clear();
+                }
                 "OK" => {
                     in_commit = false;
                     c += 1;
@@ -155,7 +170,7 @@ pub fn analyse(case: &HistoryCase, dance: u8, dir: &Path, seed: u64, exhaustive_
             },
             Ev::Sync { size, result } => {
                 cur_size = *size;
-                if *result != 0 {
+                if *result != 0 || harness_write {
                     continue;
                 }
                 if started {
@@ -280,9 +295,19 @@ fn shard(ctx: &ShardCtx, known: &Known) -> ShardOut {
         let seed = mix(ctx.shard_seed("c02"), i as u64);
         let history = crash_history(seed);
         let dance = if seed % 4 == 2 { 1 } else if seed % 16 == 7 { 2 } else { 0 };
-        let case = C02Case { history, dance };
+        // 1 history in 8 turns into a file written by a release <= 0.10 half-way: a Reopen is
+        // inserted after the k-th transaction and both headers are re-encoded there
+        let mut history = history;
+        let legacy_at = if seed % 8 == 1 && history.txs.len() >= 3 {
+            let k = 1 + (seed / 8 % (history.txs.len() as u64 - 2)) as usize;
+            history.txs.insert(k, TxSpec { kind: TxKind::Reopen, ops: vec![] });
+            Some(k)
+        } else {
+            None
+        };
+        let case = C02Case { history, dance, legacy_at };
         note_current(ctx, "c02", &case);
-        match analyse(&case.history, case.dance, &ctx.scratch, seed, ex, rnd) {
+        match analyse(&case.history, case.dance, case.legacy_at, &ctx.scratch, seed, ex, rnd) {
             Ok(a) => {
                 out.evaluations += a.images;
                 for h in &a.nontrivial_hashes {
@@ -291,6 +316,9 @@ fn shard(ctx: &ShardCtx, known: &Known) -> ShardOut {
                     }
                 }
                 out.class_n("commits analysed", a.commits);
+                if case.legacy_at.is_some() {
+                    out.class_n("commits analysed on a file converted to the legacy header format half-way", a.commits);
+                }
                 if case.dance != 0 {
                     out.class_n("commits analysed with a short-lived reader around the writer", a.commits);
                 }
@@ -323,5 +351,5 @@ pub fn replay(fr: &FailRec, dir: &std::path::Path) -> Option<Failure> {
         Ok(c) => c,
         Err(e) => return Some(Failure::new("harness_panic", format!("bad C02 case: {}", e))),
     };
-    analyse(&case.history, case.dance, dir, 1, 10, 24).err()
+    analyse(&case.history, case.dance, case.legacy_at, dir, 1, 10, 24).err()
 }
